@@ -23,7 +23,7 @@ META = {
     "the same in block form and in line-statement / line-comment form in a trim_blocks+lstrip_blocks environment; "
     "(iii) jinja2.Template(src, **opts) equals Environment(**opts).from_string(src) over a 288-point option grid; "
     "(iv) every overlay chain of <= 3 single-option steps renders like a fresh environment with the final options and "
-    "leaves its ancestors unchanged; (v) every history of <= 4 operations over {create environment, render, "
+    "leaves its ancestors unchanged; (v) every history of <= 4 (thorough 5) operations over {create environment, render, "
     "Template(), overlay} on pairs of configurations that differ from a base in exactly one lexer-cache-key field, "
     "plus an eviction phase with 52 configurations and 11 spontaneous environments: each render equals the render of "
     "the same configuration alone after clear_caches().",
@@ -584,7 +584,7 @@ def hist_shard(arg) -> core.Part:
     if a == 0 and b != 0 and ref[a] == ref[b]:
         raise core.HarnessError(f"probe template is not sensitive to {cfg_name(b)}")
     states = set()
-    for hist in hist_ops(a, b, maxlen):
+    for hist in sorted(hist_ops(a, b, maxlen), key=len):  # shortest first
         obs, state = run_history(hist)
         p.evals += 1
         p.count("v/histories")
@@ -715,7 +715,8 @@ def run(ctx: core.Ctx):
     shards += [("overlay", b, 3, not q) for b in bases]
     n5 = len(CONFIGS5)
     pairs = [(a, b) for a in range(n5) for b in range(a, n5)]
-    shards += [("hist", a, b, 4) for a, b in pairs]
+    hmax = 4 if q else 5
+    shards += [("hist", a, b, hmax) for a, b in pairs]
     shards += [("evict",)]
     ctx.pmap(shard, shards)
     ctx.cov["bounds"] = {
@@ -726,7 +727,7 @@ def run(ctx: core.Ctx):
                                  "profile": "mid" if q else "full", "max_nodes": 2},
         "ii_max_lines": Lmax, "ii_line_alphabet": len(LINE_ALPHABET),
         "iii_option_points": 288, "iv_bases": len(bases), "iv_max_chain": 3,
-        "v_configs": n5, "v_config_pairs": len(pairs), "v_max_history": 4, "v_eviction_configs": EV_N,
+        "v_configs": n5, "v_config_pairs": len(pairs), "v_max_history": hmax, "v_eviction_configs": EV_N,
     }
     ctx.cov["states"] = ctx.counters.get("v/states", 0)
     ctx.cov["transitions"] = ctx.counters.get("v/transitions", 0)
